@@ -8,6 +8,7 @@ import HappyProofs.C18.StoreJudge7
 import HappyProofs.C18.TraceFinal4
 import HappyProofs.C18.UnionRounds2
 import HappyProofs.C18.RoundBound
+import HappyProofs.C18.RoundsFull
 import HappyProofs.C18.KClock
 import HappyProofs.C18.ClockTrace
 import HappyModel.C18.Spec
